@@ -131,6 +131,7 @@ type Profile struct {
 	StaticPm     int
 	SvcPm        int
 	EnvLatePm    int
+	TwinMethodPm int // a route gets a sibling registration of the same path for another method, with its own handlers
 	GroupPm      int
 	ActionPm     int
 	NotFoundPm   int
@@ -287,6 +288,17 @@ func GenSetup(g *tape.Stream, p *Profile) *Setup {
 			rs.Headers = []string{"X-Gate", "^open$"}
 		}
 		routes = append(routes, rs)
+		if (rs.Method == "GET" || rs.Method == "POST") && g.Chance(p.TwinMethodPm) {
+			tw := &RouteSpec{Pat: pi, Pattern: pat.P, Method: "POST"}
+			if rs.Method == "POST" {
+				tw.Method = "GET"
+			}
+			nh2 := 1 + g.Intn(p.MaxRouteHs)
+			for k := 0; k < nh2; k++ {
+				tw.Hs = append(tw.Hs, HSpec{Kind: HkSim, Shape: pickShape(g, p, k == nh2-1, haveRender)})
+			}
+			routes = append(routes, tw)
+		}
 		g.End()
 	}
 	// Distribute the routes over the top level and up to two nested groups.
